@@ -188,13 +188,29 @@ def check_repeat_total(R, F, ex, res, tag, nn):
     est = l["entry_state"]
     lname = lid.split("@")[1].split("/")[0]
     # candidate counters: loop-carried unsigned integers
-    cands = [r for r, v in est.mem.items() if isinstance(v, IntV) and not v.signed and v.poly().is_atom() is not None and "loop:" in repr(v.poly())]
+    def leaves(v, path=(), depth=0):
+        # loop-carried unsigned integers, also inside a (nested) struct or tuple local (`plan.remaining`)
+        if isinstance(v, IntV):
+            if not v.signed and v.poly().is_atom() is not None and "loop:" in repr(v.poly()):
+                yield path, v
+        elif isinstance(v, Agg) and v.kind in ("adt", "tuple") and depth < 3 and not (v.name or "").startswith("core::"):
+            for i, f_ in enumerate(v.fields):
+                yield from leaves(f_, path + (("f", i, None),), depth + 1)
+
+    def at(mem, loc):
+        v = mem.get(loc[0])
+        for step in loc[1]:
+            if not isinstance(v, Agg) or step[1] >= len(v.fields):
+                return None
+            v = v.fields[step[1]]
+        return v
+    cands = [(r, pth) for r, v in est.mem.items() for pth, _v in leaves(v)]
     good = []
     for r in cands:
         ok = bool(l["cont"])
         for c in l["cont"]:
             f = c["state"].facts
-            end = c["state"].mem.get(r)
+            end = at(c["state"].mem, r)
             if not isinstance(end, IntV):
                 ok = False
                 break
@@ -203,7 +219,7 @@ def check_repeat_total(R, F, ex, res, tag, nn):
                 if TR.classify(a_["ev"]).cls == "SPI_WRITE":
                     m_ = write_len(a_["ev"])
                     written = written + (m_ if m_ is not None else sym_int("unknown-length", 64, False))
-            d = f.simplify(written - nn * (est.mem[r].poly() - end.poly()))
+            d = f.simplify(written - nn * (at(est.mem, r).poly() - end.poly()))
             if not (f.entails_ge0(d, use_eq=True) is not None and f.entails_ge0(-d, use_eq=True) is not None):
                 ok = False
                 break
@@ -211,12 +227,12 @@ def check_repeat_total(R, F, ex, res, tag, nn):
             good.append(r)
     R.ob("C06c-repeat-loop-writes-what-it-counts", "%s|loop@%s" % (tag, lname), len(good) >= 1,
          "no loop-carried counter c of the write loop satisfies 'bytes written on a path round the loop = N x decrease of c'",
-         sample={"loop": lname, "counters": [ex.describe_loc(r, ()) for r in good]})
+         sample={"loop": lname, "counters": [ex.describe_loc(r[0], r[1]) for r in good]})
     if not good:
         return
     r = good[0]
     ev0 = l["entry_values"]
-    start = [v for k, v in ev0.items() if k.split("~")[0] == ex.describe_loc(r, ()) and isinstance(v, IntV)]
+    start = [v for k, v in ev0.items() if k.split("~")[0] == ex.describe_loc(r[0], r[1]) and isinstance(v, IntV)]
     R.ob("C06c-repeat-counter-starts-at-count", "%s|loop@%s" % (tag, lname), any(v.poly() == count for v in start),
          "the counter of the write loop starts at %s, not at the `count` argument" % [repr(v) for v in start])
     nok = 0
@@ -241,7 +257,7 @@ def check_repeat_total(R, F, ex, res, tag, nn):
                 else:
                     tot = tot + m_
         pre = [a_ for a_ in TR.annotate(before, None) if TR.classify(a_["ev"]).cls == "SPI_WRITE"]
-        fin = o.state.mem.get(r) if idx else None
+        fin = at(o.state.mem, r) if idx else None
         want = nn * (fin.poly() if isinstance(fin, IntV) else count)
         d = f.simplify(tot - want)
         ok = not und and not pre and f.entails_ge0(d, use_eq=True) is not None and f.entails_ge0(-d, use_eq=True) is not None
@@ -401,24 +417,37 @@ def run(R):
                 for c in conts:
                     stc = c["state"]
                     found = False
-                    for name, v0 in l["entry_values"].items():
-                        if not isinstance(v0, IntV) or v0.signed:
-                            continue
-                        # value of the same local at the back edge vs at the loop head (havoced symbol)
-                        root_path = [rp for rp in stc.mem if False]
-                        head = None
-                        st_entry = l["entry_state"]
-                        for (r, pth), nm in [((r, ()), ex.describe_loc(r, ())) for r in st_entry.mem if r[0] == "L"]:
-                            if nm == name:
-                                head = st_entry.mem[r]
-                                end = stc.mem.get(r)
-                                if isinstance(head, IntV) and isinstance(end, IntV):
-                                    delta = head.poly() - end.poly()     # decrease per iteration
-                                    if stc.facts.entails_ge0(delta - 1):
-                                        found = True
-                                    else:
-                                        detail.append("%s decreases by %r per iteration, which the path facts do not bound below by 1"
-                                                      % (name, stc.facts.simplify(delta)))
+                    st_entry = l["entry_state"]
+
+                    def int_locs(v, path=(), depth=0):
+                        if isinstance(v, IntV):
+                            yield path, v
+                        elif isinstance(v, Agg) and v.kind in ("adt", "tuple") and depth < 3 and not (v.name or "").startswith("core::"):
+                            for i_, f_ in enumerate(v.fields):
+                                yield from int_locs(f_, path + (("f", i_, None),), depth + 1)
+
+                    def value_at(mem, r_, pth_):
+                        v_ = mem.get(r_)
+                        for step in pth_:
+                            if not isinstance(v_, Agg) or step[1] >= len(v_.fields):
+                                return None
+                            v_ = v_.fields[step[1]]
+                        return v_
+                    # an unsigned loop-carried integer (a local, or a field of a struct / tuple local): its value at the
+                    # back edge vs at the loop head (havoced symbol)
+                    for r in [r_ for r_ in st_entry.mem if r_[0] == "L"]:
+                        for pth, head in int_locs(st_entry.mem[r]):
+                            if head.signed or "loop:" not in repr(head.poly()):
+                                continue
+                            name = ex.describe_loc(r, pth)
+                            end = value_at(stc.mem, r, pth)
+                            if isinstance(end, IntV):
+                                delta = head.poly() - end.poly()     # decrease per iteration
+                                if stc.facts.entails_ge0(delta - 1):
+                                    found = True
+                                elif stc.facts.simplify(delta).const_value() != 0:
+                                    detail.append("%s decreases by %r per iteration, which the path facts do not bound below by 1"
+                                                  % (name, stc.facts.simplify(delta)))
                     ok_all = ok_all and found
                 R.ob("C06e-loop-progress", "%s|loop@%s|counter" % (tag, where), ok_all,
                      "the loop at %s may not terminate: no loop-carried counter provably decreases (%s)" % (where, "; ".join(detail[:3])), where,
